@@ -1879,6 +1879,10 @@ fn gen_order_case(out: &mut Out, base: &Path, rng: &mut Rng, k: u64) {
                         1 => rng.range(1, 9),
                         // update_uncles' guard `remain_size > one uncle`: exactly one uncle's size left (refused,
                         // the container is not even read) and one byte more (an uncle is taken)
+                        // (always exactly one uncle's size when candidates of the OLD epoch will arrive after
+                        // this fill — tip = last block of its epoch, U after P: only there does reading the
+                        // container at the boundary show, as pruned candidates)
+                        _ if epoch_end && perm.iter().position(|c| *c == 'P') < perm.iter().position(|c| *c == 'U') => 228,
                         _ => match rng.below(5) {
                             0 | 1 => 228,
                             2 => 229,
